@@ -192,6 +192,9 @@ func checkGuardsFile(p *Program, r *Report, file string) {
 				continue
 			}
 			r.pass("guard/present", cons, p.pos(got[0].Pos), sp.refs[k])
+			if ps := p.Fset.Position(got[0].Pos); ps.IsValid() && !strings.Contains(k, "=> panic") {
+				r.mutantGuards = append(r.mutantGuards, mutTarget{file: ps.Filename, pos: ps.Offset, fn: sfn, key: k})
+			}
 			for _, g := range got {
 				if g.Avoid != "" && !sp.avoidOK[k] {
 					r.fail("guard/unavoidable", cons, p.pos(g.Pos), g.Avoid)
